@@ -19,3 +19,7 @@ import SpoxModel.Props.C07
 #print axioms C07.guarded_nodes_valueless
 #print axioms C07.sampling_guarded
 #print axioms C07.sampling_nodes_valueless
+#print axioms C07.feed_roundtrip
+#print axioms C07.feed_roundtrip_tensor
+#print axioms C07.feed_roundtrip_counterexample
+#print axioms C07.converted_value_roundtrips_exactly
